@@ -104,3 +104,10 @@ named_json = dict(
     bounded=dict(bound='8 templates x 27 value tuples x 2 orders x 2 passes', form='b'),
     dropped=[], trusted=['g++ / libstdc++ / fmt execute the real frontend, backend and sink'], min_obligations=1, timeout=900)
 UNITS += [named_json]
+level_filter = dict(
+    name='BW.level_filter', primary='C16', props={'C16'}, kind='L', funcs=[], enforce=None,
+    desc='levels and filters through the real pipeline: static macros and LOG_DYNAMIC, a logger whose level changes between statements, three sinks (level filter; user filter added at run time; override pattern + level filter): a statement reaches a sink iff it passes logger level, sink level and sink filters, with the sink\'s own formatting and the effective level',
+    native=dict(cpp='level_filter.cpp', file='include/quill/backend/BackendWorker.h', function='LoggerBase::should_log_statement, Sink::apply_all_filters, BackendWorker::_write_log_statement, the LOG_* / LOG_DYNAMIC macros', defs_quick=['LEN=2'], defs_thorough=['LEN=3']),
+    bounded=dict(bound='4 x 3 x 3 configurations x sequences of 1..2 (thorough: 3) statements over 16 kinds', form='b'),
+    dropped=[], trusted=['g++ / libstdc++ / fmt execute the real frontend and backend'], min_obligations=1, timeout=900)
+UNITS += [level_filter]
